@@ -581,8 +581,23 @@ fn run_builder(env: &mut Env, signers: &[(&TestKey, HashAlgorithm)], text: bool,
             ($b:expr) => {{
                 let mut b = $b;
                 if text { b.sign_text(); }
-                for (rs, (_, h)) in recs.iter().zip(signers) {
-                    b.sign(rs as &dyn SigningKey, Password::empty(), *h);
+                for (si, (rs, (_, h))) in recs.iter().zip(signers).enumerate() {
+                    if (seed as usize + si) % 3 == 0 {
+                        // caller-provided subpackets WITHOUT any issuer subpacket (legal: the issuer
+                        // subpackets are hints): such a signature is a candidate for every key
+                        let created = pgp::packet::Subpacket::regular(pgp::packet::SubpacketData::SignatureCreationTime(pgp::types::Timestamp::now()));
+                        match created {
+                            Ok(c) => {
+                                b.sign_with_subpackets(rs as &dyn SigningKey, Password::empty(), *h,
+                                    pgp::composed::SubpacketConfig::UserDefined { hashed: vec![c], unhashed: vec![] });
+                            }
+                            Err(_) => {
+                                b.sign(rs as &dyn SigningKey, Password::empty(), *h);
+                            }
+                        }
+                    } else {
+                        b.sign(rs as &dyn SigningKey, Password::empty(), *h);
+                    }
                 }
                 if armor {
                     b.to_armored_string(&mut brng, ArmorOptions::default()).map(|s| s.into_bytes()).map_err(|e| e.to_string())
@@ -616,6 +631,7 @@ fn run_builder(env: &mut Env, signers: &[(&TestKey, HashAlgorithm)], text: bool,
         key_saw: Option<Vec<u8>>,
     }
     let rvs: Vec<RecVerifier<pgp::packet::PublicKey>> = signers.iter().map(|(k, _)| RecVerifier::new(k.pk())).collect();
+    let mut nested: Vec<(String, bool, String)> = Vec::new();
     let r = guarded(|| -> Result<(Vec<u8>, Vec<Slot>), String> {
         let mut m = if armor {
             Message::from_armor(&msg[..]).map_err(|e| format!("from_armor: {e}"))?.0
@@ -634,12 +650,32 @@ fn run_builder(env: &mut Env, signers: &[(&TestKey, HashAlgorithm)], text: bool,
             };
             res.push(Slot { sig, digest, verdict, key_saw });
         }
+        // `verify_nested` with the keys in other orders and with each key alone: the result for a key
+        // does not depend on where the caller lists it
+        let pubs: Vec<&pgp::packet::PublicKey> = signers.iter().map(|(k, _)| k.pk()).collect();
+        let n = pubs.len();
+        let mut orders: Vec<Vec<usize>> = vec![(0..n).rev().collect(), (0..n).map(|i| (i + 1) % n.max(1)).collect()];
+        for i in 0..n {
+            orders.push(vec![i]);
+        }
+        for order in orders {
+            if order.is_empty() {
+                continue;
+            }
+            let keys: Vec<&dyn VerifyingKey> = order.iter().map(|&i| pubs[i] as &dyn VerifyingKey).collect();
+            let r = m.verify_nested(&keys).map_err(|e| e.to_string());
+            let all_valid = matches!(&r, Ok(v) if v.len() == keys.len() && v.iter().all(|x| matches!(x, pgp::composed::VerificationResult::Valid(_))));
+            nested.push((format!("{order:?}"), all_valid, match &r { Ok(v) => format!("{:?}", v.iter().map(|x| matches!(x, pgp::composed::VerificationResult::Valid(_))).collect::<Vec<_>>()), Err(e) => e.clone() }));
+        }
         Ok((out, res))
     });
     let vsite = format!("{site} -> {} -> Message::verify", if armor { "to_armored_string -> from_armor" } else { "to_vec -> from_bytes" });
     match r {
         Ok(Ok((out, res))) => {
             env.ctx.oracle("payload_unchanged", &vsite, &inp, out == payload, "literal body differs");
+            for (order, ok, detail) in &nested {
+                env.ctx.oracle("sign_then_verify", &format!("{site} -> Message::verify_nested(keys in order {order})"), &inp, *ok, detail);
+            }
             for (i, slot) in res.iter().enumerate() {
                 let (key, _) = signers[i];
                 let inp_i = format!("{inp} signer={i}");
